@@ -320,6 +320,31 @@ def check_flow(case, ctx):
         acc.finalize()
         return combined, acc.final_tx().serialize()
 
+    # a coordinator that keeps the signers' PSBT objects: a fresh (unsigned) object collects them one by one.
+    # Combining reads its argument; it must not change it, nor tie it to the collecting object
+    def coordinator(order):
+        parts = []
+        for s in order:
+            q = PSBT.parse(BytesIO(base))
+            q.sign(w.roots[s])
+            parts.append(q)
+        snaps = [q.serialize() for q in parts]
+        fresh = PSBT.parse(BytesIO(base))
+        for k, q in enumerate(parts):
+            fresh.combine(q)
+            for k2, q2 in enumerate(parts):
+                require(q2.serialize() == snaps[k2], "workflow/combine_changed_a_signers_psbt_object",
+                        f"after combining part {k} of order {order}, part {k2} serialises differently")
+        again = PSBT.parse(BytesIO(base))
+        again.combine(parts[0])
+        require(again.serialize() == snaps[0], "workflow/combine_of_one_signer_carries_other_signatures",
+                f"order={order}")
+        return fresh.serialize()
+
+    if len(case["h2"]["order"]) >= 2:
+        ctx.label("coordinator_path")
+        cm = must(coordinator, "workflow/coordinator", list(case["h2"]["order"]))
+        require(cm == c1, "workflow/combined_psbt_depends_on_order:coordinator")
     for hist, how in ((case["h1"], False), (case["h2"], True)):
         if not hist["order"]:
             continue
